@@ -19,6 +19,7 @@ func init() {
 		Explanation: "Decides: R1 backtrack-undo pairing — after a child segment matched and its subtree search failed, every path to the next attempt / to giving up restores the remaining path from the value saved before the match and deletes exactly that child's capture (no other key); R2 capture discipline in the segment matcher (key = the segment's name, only when the name is not ignored, value = a prefix of the remaining path; every accepting exit of a parameter kind captured or ignores the name); R3 literal text spliced into a regexp is quoted; R4 handler lookup conformance of Tree.Handler (the handler returned is the lookup of the requested method — or of the 405 key — in the returned node's own map, 404 exactly with a nil node; the matcher returns only nil, its recursion result, or its receiver when the path is consumed and handlers exist); R5 only the segment matcher sets and only the backtracking matcher deletes request parameters below Tree.Handler; R6 first-byte index coherence (the index fast path deletes no capture because the index holds literal children only — that needs a coherent index, = C03.R1/R2); R7 Remove(pattern) drops every handler, so a removed pattern is never reported. " +
 			"R19 (= C13.R10) the And/Or combinators, also with two members answering differently: the path put back is the one read before the first member. " +
 			"R20 every capturing segment the parser builds is remembered for the duplicate-name test before the next piece is parsed. " +
+			"R21 a parameter rule that contains '{' is refused; R22 the end-point flag is the emptiness of the suffix; R1 also: an abandoned capturing child's name gets back the value it held before the attempt. " +
 			"Not decided: that captured text satisfies the regexp / interceptor constraint for all inputs (semantics of regexp and of user functions).",
 		Assumptions: append([]string{"Segment.Match changes ctx.Path and the parameters only when it returns true (checked for captures by R2)"}, commonAssumptions...),
 		Run: func(c *Ctx) {
@@ -45,6 +46,8 @@ func init() {
 			ruleSegmentsAreBuiltFromParsedPieces(c, "R18")
 			ruleCombinators(c, "R19")
 			ruleParameterNamesAreRemembered(c, "R20")
+			ruleRuleTextHasNoBraces(c, "R21")
+			ruleEndpointIsAnEmptySuffix(c, "R22")
 			rulePoolReleaseOnce(c, "R16")
 		},
 	})
@@ -312,10 +315,71 @@ func ruleBacktrackUndo(c *Ctx, rule string) {
 			}
 			return 0
 		}
+		// what the name held before the attempt: ctx.Get(name) in front of the attempt, in the scanning function
+		getF := c.P.MustFunc("types.(*Context).Get")
+		setF := c.P.MustFunc("types.(*Context).Set")
+		var savedGets []*ssa.Call
+		an.AllInstrs(f, func(in ssa.Instruction) {
+			call, ok := in.(*ssa.Call)
+			if !ok {
+				return
+			}
+			if g := an.StaticCallee(&call.Call); g == nil || an.Origin(g) != an.Origin(getF) {
+				return
+			}
+			if an.AP(call.Call.Args[1]) != wantKey[f] {
+				return
+			}
+			// before the attempt on every path that reaches it through this call's block
+			if call.Block().Dominates(m.Block()) || (&an.Query{Target: func(t ssa.Instruction) bool { return t == ssa.Instruction(m) }}).Search(an.After(call)) != nil {
+				savedGets = append(savedGets, call)
+			}
+		})
+		// v is component k of a saved lookup, directly or as the only non-constant edge of a phi
+		var isSaved func(v ssa.Value, k int, depth int) bool
+		isSaved = func(v ssa.Value, k int, depth int) bool {
+			if depth > 3 {
+				return false
+			}
+			switch x := v.(type) {
+			case *ssa.Extract:
+				if x.Index != k {
+					return false
+				}
+				for _, g := range savedGets {
+					if x.Tuple == ssa.Value(g) {
+						return true
+					}
+				}
+			case *ssa.Phi:
+				hit := false
+				for _, e := range x.Edges {
+					if _, isK := e.(*ssa.Const); isK {
+						continue
+					}
+					if !isSaved(e, k, depth+1) {
+						return false
+					}
+					hit = true
+				}
+				return hit
+			}
+			return false
+		}
+		isRestoreSet := func(in ssa.Instruction) bool {
+			call, ok := calleeIs(in, setF)
+			return ok && an.AP(call.Args[1]) == wantKey[in.Parent()] && isSaved(call.Args[2], 0, 0)
+		}
+		notHadEdge := func(b *ssa.BasicBlock, succ int) bool {
+			return edgeHas(b, succ, func(cond ssa.Value, truth bool) bool {
+				bare, neg := stripNot(cond)
+				return isSaved(bare, 1, 0) && truth == neg // the lookup found nothing
+			})
+		}
 		if !viaIndex {
 			qB := mk(func(in ssa.Instruction) bool {
 				_, right := isDelOf(in)
-				return right || isSuccessRet(in)
+				return right || isRestoreSet(in) || isSuccessRet(in)
 			})
 			qB.BlockEdge = func(b *ssa.BasicBlock, succ int) bool { return edgeKind(b, succ) == 1 }
 			pathB := qB.Search(start)
@@ -336,6 +400,28 @@ func ruleBacktrackUndo(c *Ctx, rule string) {
 			o := c.R.Add(rule, c.fk(f), construct, c.pos(m), pathD == nil, ifelse(pathD == nil, "the abandoned child's name is deleted only behind a test (a predicate of the syntax package, false for literal and name-ignoring segments) that it wrote that name", "the abandoned child's name is deleted without knowing that the child wrote it: a child that ignores its name ({-name}) wrote nothing, and a parameter of the same name recorded before the search (by a matcher) is lost"))
 			if pathD != nil {
 				o.Path = c.P.PathString(pathD)
+			}
+		}
+		// (b'') what the name held before the attempt is put back: a capturing child overwrites a parameter of the same
+		// name that a Matcher recorded before the route search (a path version stored as "ver", a Hosts capture);
+		// abandoning the child by deleting the name loses that value. The undo is a Set of the value looked up
+		// before the attempt, or a Delete behind the edge on which that lookup found nothing.
+		if !viaIndex {
+			qR := mk(func(in ssa.Instruction) bool {
+				if isRestoreSet(in) || isSuccessRet(in) {
+					return true
+				}
+				if _, right := isDelOf(in); right {
+					return an.DominatedByEdge(in, notHadEdge)
+				}
+				return false
+			})
+			qR.BlockEdge = func(b *ssa.BasicBlock, succ int) bool { return edgeKind(b, succ) == 1 }
+			pathR := qR.Search(start)
+			construct := fmt.Sprintf("match:%s/scan/abandon-restores-what-the-name-held:%s", segAP, wantKey[f])
+			o := c.R.Add(rule, c.fk(f), construct, c.pos(m), pathR == nil, ifelse(pathR == nil, "the value the name held before the attempt is put back (or the name is deleted when it held none)", "a capturing child that is abandoned has its name deleted whatever the name held before the attempt: a parameter of the same name recorded by a Matcher before the route search (the path version under \"ver\", a Hosts capture) is lost although the route finally served does not capture that name"))
+			if pathR != nil {
+				o.Path = c.P.PathString(pathR)
 			}
 		}
 		// (c) no other key is deleted on the abandon paths
@@ -1015,9 +1101,48 @@ func ruleParamWriters(c *Ctx, rule string) {
 				return
 			}
 			good := (kind == "set" && fam[f]) || (kind == "delete" && isBacktracker[f])
+			// the backtracking matcher may put back what a name held before the attempt it abandons
+			if !good && kind == "set" && isBacktracker[f] && len(call.Args) == 3 && putsBackLookedUpValue(c, call) {
+				good = true
+			}
 			c.R.Add(rule, c.fk(f), "param-"+kind, c.pos(in), good, ifelse(good, "owner of this kind of write", "request parameters are written ("+kind+") below Tree.Handler outside the matcher: "+an.Chain(reach, f)))
 		})
 	}
+}
+
+// putsBackLookedUpValue: Set(ctx, key, v) where v is the value component of ctx.Get(key) for the same key (directly
+// or as the only non-constant edge of a phi).
+func putsBackLookedUpValue(c *Ctx, set *ssa.CallCommon) bool {
+	getF := c.P.MustFunc("types.(*Context).Get")
+	var trace func(v ssa.Value, depth int) bool
+	trace = func(v ssa.Value, depth int) bool {
+		if depth > 3 {
+			return false
+		}
+		switch x := v.(type) {
+		case *ssa.Extract:
+			gc, ok := x.Tuple.(*ssa.Call)
+			if !ok || x.Index != 0 {
+				return false
+			}
+			g := an.StaticCallee(&gc.Call)
+			return g != nil && an.Origin(g) == an.Origin(getF) && an.AP(gc.Call.Args[1]) == an.AP(set.Args[1]) && an.AP(gc.Call.Args[0]) == an.AP(set.Args[0])
+		case *ssa.Phi:
+			hit := false
+			for _, e := range x.Edges {
+				if _, isK := e.(*ssa.Const); isK {
+					continue
+				}
+				if !trace(e, depth+1) {
+					return false
+				}
+				hit = true
+			}
+			return hit
+		}
+		return false
+	}
+	return trace(set.Args[2], 0)
 }
 
 func instrIndex(in ssa.Instruction) int {
